@@ -85,7 +85,7 @@ Lemma lockstep_advance : forall p gs d G,
   QSg false 0 d p gs -> LKx p -> Forall (fun c => cs_last c + 1 < I32MAX) (ps_status p) -> TI p gs G ->
   exists p' o r gs', advance predict p = Ok (p', o, r) /\ QSg false 0 d p' gs' /\ LKx p' /\
     TI p' gs' (replay_hist G (o_requests o)) /\
-    hist_step d (ps_pending p) (local_handles p) gs gs' /\ ps_kinds p' = ps_kinds p /\ spec_step p gs o p' /\
+    hist_step d (ps_pending p) (local_handles p) gs gs' /\ ps_kinds p' = ps_kinds p /\ spec_step p gs' o p' /\
     Forall (truthful_lt (s_current (ps_sync p')) gs') (adv_frames G (o_requests o)) /\
     all_confirmed (o_requests o).
 Proof.
@@ -301,7 +301,7 @@ Proof.
     destruct (Hhist4 h0 gh4 A4) as (gh & Ag & Bg). exists gh. split; [exact Ag|]. rewrite <- Efst. exact Bg. }
   split; [subst base; cbn [with_sync with_pending ps_kinds]; exact Hk5|].
   split.
-  { apply spec_step_none; [exact Hsok|subst base; cbn [with_sync with_pending ps_spectators]; exact Hss5|subst base; cbn [with_sync with_pending ps_next_spec]; exact Hns5|exact Hos2]. }
+  { apply spec_step_none; [intros X; congruence|subst base; cbn [with_sync with_pending ps_spectators]; exact Hss5|subst base; cbn [with_sync with_pending ps_next_spec]; exact Hns5|exact Hos2]. }
   split; [|exact HAC2].
   cbn [with_sync ps_sync]. rewrite Hc3. eapply Forall_impl; [|exact HTR2]. intros fi (Hlt & Ht). split; [exact Hlt|].
   apply (truthful_map_fst predict gs4 gs3); [exact Hmap3|exact Ht].
@@ -371,7 +371,7 @@ Lemma lockstep_CI_adv : forall p gs g w d p' o r G,
   QSg false w d p gs -> CIl w p g -> Forall (fun c => cs_last c < I32MAX) (ps_status p) ->
   Forall (fun c => cs_last c + 1 < I32MAX) (ps_status p) -> TI p gs G ->
   exists gs', QSg false w d p' gs' /\ TI p' gs' (replay_hist G (o_requests o)) /\
-    hist_step d (ps_pending p) (local_handles p) gs gs' /\ ps_kinds p' = ps_kinds p /\ spec_step p gs o p' /\
+    hist_step d (ps_pending p) (local_handles p) gs gs' /\ ps_kinds p' = ps_kinds p /\ spec_step p gs' o p' /\
     Forall (truthful_lt (s_current (ps_sync p')) gs') (adv_frames G (o_requests o)).
 Proof.
   intros p gs g w d p' o r G E HQS (-> & _ & HLK & _) _ Hbnd1 HTI.
